@@ -158,14 +158,16 @@ def special_point(shape, st, k=0):
         fl[:2] = 0.0
     elif st == "big":
         fl = onp.where(onp.arange(fl.size) % 2 == 0, 400.0, -400.0) + fl
+    elif st == "huge":
+        fl = onp.where(onp.arange(fl.size) % 2 == 0, 1100.0, -1100.0) + fl
     return fl.reshape(shape)
 
 
 def b_special(c):
     prim, st, s = c["prim"], c["st"], tuple(c["s"])
-    if prim in ("logaddexp", "logaddexp2") and st == "big":
-        x = special_point(s, "big")
-        other = data(s, 0.4, 1.9, 5)
+    if prim in ("logaddexp", "logaddexp2") and st in ("big", "huge"):
+        x = special_point(s, st)
+        other = data(s, 0.4, 1.9, 5) + (x if st == "huge" else 0.0)
         fn = getattr(np, prim)
         return ((lambda v: fn(v, other)) if c["argnum"] == 0 else (lambda v: fn(other, v))), x, {}
     if prim == "power":
@@ -393,7 +395,15 @@ def b_extend(c):
         with warnings.catch_warnings():
             warnings.simplefilter("ignore")
             zero = tuple(i for i, fl in enumerate((fl0, fl1)) if fl)
-            if api == "deprecated":
+            only = c["argnum"] if (tbl == 0 and c["id"] % 3 == 1) else None      # register the rule of the differentiated argument ONLY
+            if only is not None:
+                if api == "deprecated":
+                    rule_ = (lambda g, ans, vs, gvs, u, v, shift=0.0: unbroadcast(spread(g) * B(v), np.metadata(u))) if only == 0 else \
+                        (lambda g, ans, vs, gvs, u, v, shift=0.0: unbroadcast(spread(g) * A(u), np.metadata(v)))
+                    user.defvjp(rule_, argnum=only)
+                else:
+                    user.defgrad(r0 if only == 0 else r1, argnum=only)
+            elif api == "deprecated":
                 if not fl0:
                     user.defvjp(lambda g, ans, vs, gvs, u, v, shift=0.0: unbroadcast(spread(g) * B(v), np.metadata(u)), argnum=0)
                 if not fl1:
@@ -416,7 +426,12 @@ def b_extend(c):
         f, fn, x = (lambda v: user(a, v, **kw)), (lambda v: raw(a, v, **kw)), b
     if onp.ndim(x) == 0:
         x = as_arg(x, "pyfloat" if c["id"] % 2 == 0 else "zerod")
-    return f, x, {"f_numpy": fn}
+    info = {"f_numpy": fn}
+    if api in ("deprecated", "defgrad") and tbl == 0 and c["id"] % 3 == 1:
+        # the OTHER argument has no reverse rule at all: differentiating with respect to it must raise (whatever was registered for other
+        # primitives before)
+        info["missing"] = ((lambda v: user(a, v, **kw)), b) if c["argnum"] == 0 else ((lambda u: user(u, b, **kw)), a)
+    return f, x, info
 
 
 # ----------------------------------------------------------------------------- reductions
@@ -601,7 +616,9 @@ def b_rearr(c):
         need(nd >= 1 and s[-1] > ia)
         f = lambda v: np.partition(v, ia)
     elif prim == "clip":
-        f = (lambda v: np.clip(v, 0.8, 2.0)) if form == "func" else (lambda v: v.clip(0.8, 2.0))
+        cargs, ckw = {"-": ((0.8, 2.0), {}), "upper": ((None, 2.0), {}), "lower": ((0.8, None), {}), "kwmax": ((), {"a_max": 2.0}),
+                      "kwmin": ((), {"a_min": 0.8}), "kwboth": ((), {"a_min": 0.8, "a_max": 2.0})}[st]
+        f = (lambda v: np.clip(v, *cargs, **ckw)) if form == "func" else (lambda v: v.clip(*cargs, **ckw))
     elif prim == "astype":
         f = lambda v: v.astype(st)
     elif prim in ("fftshift", "ifftshift"):
@@ -654,6 +671,12 @@ def b_join(c):
             f = lambda v: np.array(ops(v)[0], ndmin=4)
         elif st == "bare":
             f = lambda v: np.array(ops(v)[0])
+        elif st in ("listndmin1", "listndmin3"):
+            f = lambda v: np.array(ops(v), ndmin=int(st[-1]))          # a list of operands AND ndmin: only the result is padded
+        elif st == "listdtype":
+            f = lambda v: np.array(ops(v), dtype=float)
+        elif st == "tuple":
+            f = lambda v: np.array(tuple(ops(v)))
         else:
             f = lambda v: np.array(ops(v))
     elif prim == "r_":
@@ -917,6 +940,9 @@ def b_fft(c):
     s = tuple(c["s"])
     x = data(s, 0.3, 2.7, 0, kind == "cc")
     norm = None if c["st"] == "none" else c["st"]
+    if prim in ("fftshift", "ifftshift"):
+        ax = axis_arg(c["ax"])
+        return ((lambda v: getattr(ff, prim)(v)) if ax is None else (lambda v: getattr(ff, prim)(v, axes=ax))), x, {}
     if prim in ("fft", "ifft", "rfft", "irfft"):
         n = c["ia"] or None
         ax = axis_arg(c["ax"])
